@@ -6,6 +6,8 @@ import (
 	"fmt"
 	"math"
 	"math/rand/v2"
+	"os"
+	"path/filepath"
 	"sort"
 	"strings"
 	"time"
@@ -279,6 +281,14 @@ func (planH) Execute(c *Case, res *Result) {
 		inst := sim.NewInstance()
 		cfg := coretypes.Config{LockTimeout: 30 * time.Second, GlobalTimeout: 300 * time.Second, ConnectionTimeout: 10 * time.Second, MaxConcurrency: 100000, Store: "etcd"}
 		cfg.Etcd.LockPrefix = "/lock"
+		cfg.WALOpenTimeout = 8 * time.Second
+		base := "/dev/shm"
+		if st, err := os.Stat(base); err != nil || !st.IsDir() {
+			base = os.TempDir()
+		}
+		tmp, _ := os.MkdirTemp(base, "verif-plan-")
+		defer os.RemoveAll(tmp)
+		cfg.WALFile = filepath.Join(tmp, "core.wal")
 		esrv := simetcd.NewServer(sim, "etcd")
 		eh := esrv.NewClient(inst, "etcd")
 		defer eh.Close()
@@ -374,12 +384,13 @@ func (planH) Execute(c *Case, res *Result) {
 					res.Probes["query"]++
 					res.Probes["query_"+op.Strategy]++
 					if sim.Stats.ErrFired != before {
-						// a failed party or store call: the request has to be refused, nothing planned
+						// a failed plugin, store or lock call: the request may be refused; if it is
+						// answered all the same (e.g. only an unlock failed) the answer has to be right
 						res.Probes["query_with_injected_failure"]++
-						if err == nil {
-							viol(c.Property, "succeeded-although-a-party-failed", op.Strategy, fmt.Sprintf("CalculateCapacity(%s) returned %v although a plugin or store call failed", op.Strategy, msg.NodeCapacities))
+						if err != nil {
+							res.Probes["query_refused_after_injected_failure"]++
+							continue
 						}
-						continue
 					}
 					// ---- reference merge (C09) from what the plugins were asked ----
 					asked := pls[0].asked
